@@ -4,6 +4,7 @@ import JoinModel.Print
 import JoinModel.Spec
 import JoinModel.Concrete
 import JoinModel.ParseDriver
+import JoinModel.AsyncConcrete
 import JoinModel.Names
 open JoinModel
 
@@ -28,6 +29,10 @@ def handleLine (line : String) : String :=
       | .error e => id ++ "\tgenerr:" ++ e.name
     | _, _, _ => id ++ "\tbadinput"
   | ["PARSE", id, toks, oracle] => parseCommand id toks oracle
+  | ["APOLL", id, kind, struct, world, sched] =>
+    match Kind.ofString kind, parseInput struct, parseWorld world, parseBatches sched with
+    | some k, some p, some w, some b => id ++ "\t" ++ apollLine p k w b
+    | _, _, _, _ => id ++ "\tbadinput"
   | ["ECHO", id, struct] =>
     match parseInput struct with
     | some p => id ++ "\t" ++ showInput p
